@@ -50,6 +50,32 @@ pub fn values() -> Vec<Vec<u8>> {
 }
 
 /// Index-type operands (count/position/size), in addition to V.
+/// +-(2^k - 1), +-2^k, +-(2^k + 1) for k at every byte boundary up to 72 bits and at 31, 32, 63, 64, 127, 128; plus 0, +-1, +-2, +-3, 10.
+pub fn extreme_numbers(thorough: bool) -> Vec<num_bigint::BigInt> {
+    use num_bigint::BigInt;
+    let one = BigInt::from(1);
+    let mut v: Vec<BigInt> = vec![];
+    for x in [0i64, 1, -1, 2, -2, 3, -3, 10] {
+        v.push(BigInt::from(x));
+    }
+    let mut ks: Vec<u32> = vec![7, 8, 15, 16, 23, 24, 31, 32, 39, 40, 55, 56, 63, 64, 127, 128];
+    if thorough {
+        ks.extend([47, 48, 62, 65, 71, 72, 255, 256]);
+    }
+    ks.sort();
+    for k in ks {
+        for d in [-1i32, 0, 1] {
+            let x = (one.clone() << k) + d;
+            for y in [x.clone(), -x] {
+                if !v.contains(&y) {
+                    v.push(y);
+                }
+            }
+        }
+    }
+    v
+}
+
 fn index_values() -> Vec<Vec<u8>> {
     // small counts, then 2/3/4-byte operands with a single high bit in each byte position (decoders that mask the wrong byte),
     // non-minimal small counts, the largest 4-byte value and a negative count
@@ -374,6 +400,68 @@ pub fn spaces(tier: Tier) -> Vec<Space> {
             let mut toks = pushes_for(&st, &vec![]);
             toks.push(Tok::Op(op));
             let desc = || json!({"op": opname(op), "initial_stack": show_stack(&st)});
+            if let Some(d) = check_program(&toks, acc, case, &desc) {
+                report(acc, case, &toks, &d, &desc);
+            }
+        }));
+    }
+    // (a4') extreme script numbers: +-(2^k - 1), +-2^k, +-(2^k + 1) around every byte boundary and around the native integer
+    // widths (31, 32, 63, 64, 127 bits) — every ordered pair under every binary arithmetic/comparison opcode, each value
+    // under every unary one, and every triple over a 12-value sub-alphabet under WITHIN. Post-Genesis script numbers have no
+    // 4-byte limit; the reference computes on big integers.
+    {
+        let ext = std::sync::Arc::new(extreme_numbers(thorough));
+        let ne = ext.len() as u64;
+        let ops: Vec<u8> = vec![0x93, 0x94, 0x95, 0x96, 0x97, 0x9a, 0x9b, 0x9c, 0x9d, 0x9e, 0x9f, 0xa0, 0xa1, 0xa2, 0xa3, 0xa4];
+        let no = ops.len() as u64;
+        let e1 = ext.clone();
+        v.push(Space::new("extreme-numbers-binary", no * ne * ne, move |case, acc| {
+            let c = crate::engine::coords(case.idx, &[no, ne, ne]);
+            let op = ops[c[0] as usize];
+            let st: Stack = vec![ri::enc(&e1[c[1] as usize]), ri::enc(&e1[c[2] as usize])];
+            let mut toks = pushes_for(&st, &vec![]);
+            toks.push(Tok::Op(op));
+            let desc = || json!({"op": opname(op), "initial_stack": show_stack(&st)});
+            if let Some(d) = check_program(&toks, acc, case, &desc) {
+                report(acc, case, &toks, &d, &desc);
+            }
+        }));
+        let uops: Vec<u8> = vec![0x8b, 0x8c, 0x8f, 0x90, 0x91, 0x92, 0x81, 0x82, 0x69, 0x73, 0x63, 0x64];
+        let nu = uops.len() as u64;
+        let e2 = ext.clone();
+        v.push(Space::new("extreme-numbers-unary", nu * ne, move |case, acc| {
+            let c = crate::engine::coords(case.idx, &[nu, ne]);
+            let op = uops[c[0] as usize];
+            let st: Stack = vec![ri::enc(&e2[c[1] as usize])];
+            let mut toks = pushes_for(&st, &vec![]);
+            toks.push(Tok::Op(op));
+            if op == 0x63 || op == 0x64 {
+                toks.extend([Tok::Op(0x51), Tok::Op(0x67), Tok::Op(0x52), Tok::Op(0x68)]);
+            }
+            let desc = || json!({"op": opname(op), "initial_stack": show_stack(&st)});
+            if let Some(d) = check_program(&toks, acc, case, &desc) {
+                report(acc, case, &toks, &d, &desc);
+            }
+        }));
+        let w: Vec<num_bigint::BigInt> = {
+            let one = num_bigint::BigInt::from(1);
+            let mut w = vec![];
+            for k in [31u32, 63] {
+                for d in [-1i32, 0, 1] {
+                    let x = (one.clone() << k) + d;
+                    w.push(x.clone());
+                    w.push(-x);
+                }
+            }
+            w
+        };
+        let nw = w.len() as u64;
+        v.push(Space::new("extreme-numbers-within", nw * nw * nw, move |case, acc| {
+            let c = crate::engine::coords(case.idx, &[nw, nw, nw]);
+            let st: Stack = c.iter().map(|x| ri::enc(&w[*x as usize])).collect();
+            let mut toks = pushes_for(&st, &vec![]);
+            toks.push(Tok::Op(0xa5));
+            let desc = || json!({"op": "OP_WITHIN", "initial_stack": show_stack(&st)});
             if let Some(d) = check_program(&toks, acc, case, &desc) {
                 report(acc, case, &toks, &d, &desc);
             }
